@@ -2,53 +2,53 @@
    the current code, hence holds in every reachable state. *)
 From Compio.Model Require Import Base Task.
 From Compio.Thm Require Import TaskThm.
-From Compio.Thm Require Import TaskP_rc1 TaskP_rc2 TaskP_rc3 TaskP_rc4 TaskP_rc5 TaskP_rc6 TaskP_rc7.
-From Compio.Thm Require Import TaskP_sched1 TaskP_sched2 TaskP_sched3 TaskP_sched4 TaskP_sched5 TaskP_sched6 TaskP_sched7.
-From Compio.Thm Require Import TaskP_canc1 TaskP_canc2 TaskP_canc3 TaskP_canc4 TaskP_canc5 TaskP_canc6 TaskP_canc7.
-From Compio.Thm Require Import TaskP_res1 TaskP_res2 TaskP_res3 TaskP_res4 TaskP_res5 TaskP_res6 TaskP_res7.
-From Compio.Thm Require Import TaskP_slot1 TaskP_slot2 TaskP_slot3 TaskP_slot4 TaskP_slot5 TaskP_slot6 TaskP_slot7.
-From Compio.Thm Require Import TaskP_pend1 TaskP_pend2 TaskP_pend3 TaskP_pend4 TaskP_pend5 TaskP_pend6 TaskP_pend7.
-From Compio.Thm Require Import TaskP_polls1 TaskP_polls2 TaskP_polls3 TaskP_polls4 TaskP_polls5 TaskP_polls6 TaskP_polls7.
-From Compio.Thm Require Import TaskP_fdrops1 TaskP_fdrops2 TaskP_fdrops3 TaskP_fdrops4 TaskP_fdrops5 TaskP_fdrops6 TaskP_fdrops7.
+From Compio.Thm Require Import TaskP_rc1 TaskP_rc2 TaskP_rc3 TaskP_rc4 TaskP_rc5 TaskP_rc6 TaskP_rc7 TaskP_rc8.
+From Compio.Thm Require Import TaskP_sched1 TaskP_sched2 TaskP_sched3 TaskP_sched4 TaskP_sched5 TaskP_sched6 TaskP_sched7 TaskP_sched8.
+From Compio.Thm Require Import TaskP_canc1 TaskP_canc2 TaskP_canc3 TaskP_canc4 TaskP_canc5 TaskP_canc6 TaskP_canc7 TaskP_canc8.
+From Compio.Thm Require Import TaskP_res1 TaskP_res2 TaskP_res3 TaskP_res4 TaskP_res5 TaskP_res6 TaskP_res7 TaskP_res8.
+From Compio.Thm Require Import TaskP_slot1 TaskP_slot2 TaskP_slot3 TaskP_slot4 TaskP_slot5 TaskP_slot6 TaskP_slot7 TaskP_slot8.
+From Compio.Thm Require Import TaskP_pend1 TaskP_pend2 TaskP_pend3 TaskP_pend4 TaskP_pend5 TaskP_pend6 TaskP_pend7 TaskP_pend8.
+From Compio.Thm Require Import TaskP_polls1 TaskP_polls2 TaskP_polls3 TaskP_polls4 TaskP_polls5 TaskP_polls6 TaskP_polls7 TaskP_polls8.
+From Compio.Thm Require Import TaskP_fdrops1 TaskP_fdrops2 TaskP_fdrops3 TaskP_fdrops4 TaskP_fdrops5 TaskP_fdrops6 TaskP_fdrops7 TaskP_fdrops8.
 Local Open Scope nat_scope.
 
-Lemma part_cases l : part l = 1 \/ part l = 2 \/ part l = 3 \/ part l = 4 \/ part l = 5 \/ part l = 6 \/ part l = 7.
-Proof. destruct l; try (cbn; auto 8); destruct a; cbn; auto 8. Qed.
+Lemma part_cases l : part l = 1 \/ part l = 2 \/ part l = 3 \/ part l = 4 \/ part l = 5 \/ part l = 6 \/ part l = 7 \/ part l = 8.
+Proof. destruct l; try (cbn; auto 9); destruct a; cbn; auto 9. Qed.
 
 Lemma rc_pres s l s' : Grc s -> step fixed s l = Some s' -> Grc s'.
 Proof.
-  intros. destruct (part_cases l) as [P|[P|[P|[P|[P|[P|P]]]]]];
-  [eapply rc_pres_1|eapply rc_pres_2|eapply rc_pres_3|eapply rc_pres_4|eapply rc_pres_5|eapply rc_pres_6|eapply rc_pres_7]; eauto.
+  intros. destruct (part_cases l) as [P|[P|[P|[P|[P|[P|[P|P]]]]]]];
+  [eapply rc_pres_1|eapply rc_pres_2|eapply rc_pres_3|eapply rc_pres_4|eapply rc_pres_5|eapply rc_pres_6|eapply rc_pres_7|eapply rc_pres_8]; eauto.
 Qed.
 
 Lemma sched_pres s l s' : Gsched s -> step fixed s l = Some s' -> Gsched s'.
 Proof.
-  intros. destruct (part_cases l) as [P|[P|[P|[P|[P|[P|P]]]]]];
-  [eapply sched_pres_1|eapply sched_pres_2|eapply sched_pres_3|eapply sched_pres_4|eapply sched_pres_5|eapply sched_pres_6|eapply sched_pres_7]; eauto.
+  intros. destruct (part_cases l) as [P|[P|[P|[P|[P|[P|[P|P]]]]]]];
+  [eapply sched_pres_1|eapply sched_pres_2|eapply sched_pres_3|eapply sched_pres_4|eapply sched_pres_5|eapply sched_pres_6|eapply sched_pres_7|eapply sched_pres_8]; eauto.
 Qed.
 
 Lemma canc_pres s l s' : Gcanc s -> step fixed s l = Some s' -> Gcanc s'.
 Proof.
-  intros. destruct (part_cases l) as [P|[P|[P|[P|[P|[P|P]]]]]];
-  [eapply canc_pres_1|eapply canc_pres_2|eapply canc_pres_3|eapply canc_pres_4|eapply canc_pres_5|eapply canc_pres_6|eapply canc_pres_7]; eauto.
+  intros. destruct (part_cases l) as [P|[P|[P|[P|[P|[P|[P|P]]]]]]];
+  [eapply canc_pres_1|eapply canc_pres_2|eapply canc_pres_3|eapply canc_pres_4|eapply canc_pres_5|eapply canc_pres_6|eapply canc_pres_7|eapply canc_pres_8]; eauto.
 Qed.
 
 Lemma res_pres s l s' : Grc s -> Gres s -> step fixed s l = Some s' -> Gres s'.
 Proof.
-  intros. destruct (part_cases l) as [P|[P|[P|[P|[P|[P|P]]]]]];
-  [eapply res_pres_1|eapply res_pres_2|eapply res_pres_3|eapply res_pres_4|eapply res_pres_5|eapply res_pres_6|eapply res_pres_7]; eauto.
+  intros. destruct (part_cases l) as [P|[P|[P|[P|[P|[P|[P|P]]]]]]];
+  [eapply res_pres_1|eapply res_pres_2|eapply res_pres_3|eapply res_pres_4|eapply res_pres_5|eapply res_pres_6|eapply res_pres_7|eapply res_pres_8]; eauto.
 Qed.
 
 Lemma slot_pres s l s' : Grc s -> Gres s -> Gcanc s -> Gslot s -> step fixed s l = Some s' -> Gslot s'.
 Proof.
-  intros. destruct (part_cases l) as [P|[P|[P|[P|[P|[P|P]]]]]];
-  [eapply slot_pres_1|eapply slot_pres_2|eapply slot_pres_3|eapply slot_pres_4|eapply slot_pres_5|eapply slot_pres_6|eapply slot_pres_7]; eauto.
+  intros. destruct (part_cases l) as [P|[P|[P|[P|[P|[P|[P|P]]]]]]];
+  [eapply slot_pres_1|eapply slot_pres_2|eapply slot_pres_3|eapply slot_pres_4|eapply slot_pres_5|eapply slot_pres_6|eapply slot_pres_7|eapply slot_pres_8]; eauto.
 Qed.
 
 Lemma pend_pres s l s' : Grc s -> Gres s -> Gslot s -> Gpend s -> step fixed s l = Some s' -> Gpend s'.
 Proof.
-  intros. destruct (part_cases l) as [P|[P|[P|[P|[P|[P|P]]]]]];
-  [eapply pend_pres_1|eapply pend_pres_2|eapply pend_pres_3|eapply pend_pres_4|eapply pend_pres_5|eapply pend_pres_6|eapply pend_pres_7]; eauto.
+  intros. destruct (part_cases l) as [P|[P|[P|[P|[P|[P|[P|P]]]]]]];
+  [eapply pend_pres_1|eapply pend_pres_2|eapply pend_pres_3|eapply pend_pres_4|eapply pend_pres_5|eapply pend_pres_6|eapply pend_pres_7|eapply pend_pres_8]; eauto.
 Qed.
 
 Record Inv (s : st) : Prop := mkInv {
@@ -74,15 +74,15 @@ Qed.
 
 Lemma polls_only_exec s l s' : step fixed s l = Some s' -> polls s' <> polls s -> l = EPollBegin.
 Proof.
-  intros. destruct (part_cases l) as [P|[P|[P|[P|[P|[P|P]]]]]];
+  intros. destruct (part_cases l) as [P|[P|[P|[P|[P|[P|[P|P]]]]]]];
   [eapply polls_only_exec_1|eapply polls_only_exec_2|eapply polls_only_exec_3
-  |eapply polls_only_exec_4|eapply polls_only_exec_5|eapply polls_only_exec_6|eapply polls_only_exec_7]; eauto.
+  |eapply polls_only_exec_4|eapply polls_only_exec_5|eapply polls_only_exec_6|eapply polls_only_exec_7|eapply polls_only_exec_8]; eauto.
 Qed.
 
 Lemma fdrops_only_exec s l s' : step fixed s l = Some s' -> fdrops s' <> fdrops s ->
   exec_label l = true /\ thread_of l = THome.
 Proof.
-  intros. destruct (part_cases l) as [P|[P|[P|[P|[P|[P|P]]]]]];
+  intros. destruct (part_cases l) as [P|[P|[P|[P|[P|[P|[P|P]]]]]]];
   [eapply fdrops_only_exec_1|eapply fdrops_only_exec_2|eapply fdrops_only_exec_3
-  |eapply fdrops_only_exec_4|eapply fdrops_only_exec_5|eapply fdrops_only_exec_6|eapply fdrops_only_exec_7]; eauto.
+  |eapply fdrops_only_exec_4|eapply fdrops_only_exec_5|eapply fdrops_only_exec_6|eapply fdrops_only_exec_7|eapply fdrops_only_exec_8]; eauto.
 Qed.
